@@ -894,10 +894,11 @@ def h_ctor(spec, env):
     i = -1
     made = 0
     which = spec.get("which", "both")
+    lens = list(range(0, 41)) + [64, 4096]
     if which in ("both", "aead"):
         for name in AEAD_NAMES:
-            for kl in range(0, 41):
-                for il in range(0, 41):
+            for kl in lens:
+                for il in lens:
                     i += 1
                     if not env.begin(i):
                         continue
@@ -927,7 +928,7 @@ def h_ctor(spec, env):
                         pass
     if which in ("both", "hp"):
         for name in HP_NAMES:
-            for kl in range(0, 41):
+            for kl in lens:
                 i += 1
                 if not env.begin(i):
                     continue
